@@ -6,6 +6,7 @@
 import Lean.Data.Json
 import Genql.Inst.FloatNum
 import Genql.Model.Eval
+import Genql.Model.Scan
 open Lean Genql
 
 abbrev V := Val Float
@@ -216,6 +217,16 @@ def handle (j : Json) : Json :=
       let env : Env Float := { dfx := if asis then { concatNilText := true } else .none, constants := consts }
       let data : Row Float := if wrapped then [("root", .obj doc)] else doc
       pure (outcome id (apiResult (execQuery env data {} q)))
+    | "dq2bt" => do
+      let t ← (← j.getObjVal? "text").getStr?
+      match Scan.dq2btStr t with
+      | some r => pure (Json.mkObj [("id", id), ("r", "ok"), ("v", Json.str r)])
+      | none => pure (Json.mkObj [("id", id), ("r", "error")])
+    | "fixarr" => do
+      let t ← (← j.getObjVal? "text").getStr?
+      match Scan.fixArrStr t with
+      | some r => pure (Json.mkObj [("id", id), ("r", "ok"), ("v", Json.str r)])
+      | none => pure (Json.mkObj [("id", id), ("r", "error")])
     | "compare" => do
       let dec (k : String) : Except String (Option Cmp.GoVal) := do
         let o ← j.getObjVal? k
